@@ -198,6 +198,16 @@ def fixed_programs():
                                 gvar("b", SI, {"e": "call", "fi": 1, "args": [lit(SI, 2)]}), stmt(pr(S("not reached")))], funs=[hf]))
     out.append(prog("J8_strings", [gvar("s", STR, S("a\"b_c %~")), stmt(pr(var("s"), S("|"), S(""), S("|"), S(" , +-"))),
                                    stmt(pr(iff(F, var("s"), S("Z0"), STR)))]))
+    # uncaught exception: output up to the throw, failure exit
+    tf = {"name": "tf", "ps": ["n"], "pts": [SI], "rt": SI, "pure": False,
+          "body": {"e": "seq", "t": SI, "es": [pr(S("tf "), var("n")),
+                                                 iff(prim("si.lt", var("n"), lit(SI, 0)), {"e": "throw", "exn": "Ex1", "args": []}, {"e": "unit"}, UNIT),
+                                                 prim("si.mul", var("n"), lit(SI, 3))]}}
+    out.append(prog("J9_throw", [gvar("a", SI, {"e": "call", "fi": 1, "args": [lit(SI, 4)]}), stmt(pr(var("a"))),
+                                 gvar("b", SI, {"e": "call", "fi": 1, "args": [lit(SI, -4)]}), stmt(pr(S("not reached")))],
+                    funs=[tf], exns=["Ex0", "Ex1"]))
+    # finding C12 javac-fail "not a statement": an unused Boolean initialised by `not (call)` (visible at -Q1)
+    out.append(prog("F1_unused_not", [gvar("g7", BOOL, prim("bool.not", prim("si.lt", lit(SI, -8), lit(SI, -1)))), stmt(pr(lit(SI, 1)))]))
     # outside the family: the result depends on the width of the machine integer
     out.append(prog("X_width_add", [gvar("a", SI, lit(SI, 2147483647)), stmt(pr(prim("si.add", var("a"), lit(SI, 1))))]))
     out.append(prog("X_width_mul", [gvar("a", SI, lit(SI, 65536)), stmt(pr(prim("si.tobi", prim("si.mul", var("a"), var("a")))))]))
